@@ -159,6 +159,41 @@ def expected_match(arm, sh, arms, v, payload, mode="local"):
     return line + "END\n", "ok"
 
 
+def nested_payload_cases():
+    """payloads that are themselves enum values (Option<Option<T> >, Option<Result<..> >): the inner value keeps variant and
+    payload, and a binding named like a variable in scope hides it for the arm only"""
+    SHOW = ("void show(Option<int> o) {\n    match (o) {\n        Some(n) => { println(\"  Some\", n); }\n        None => { println(\"  None\"); }\n    }\n}\n"
+            "void showl(Option<long> o) {\n    match (o) {\n        Some(n) => { println(\"  SomeL\", n); }\n        None => { println(\"  NoneL\"); }\n    }\n}\n"
+            "void showr(Result<int, string> x) {\n    match (x) {\n        Ok(v) => { println(\"  Ok\", v); }\n        Err(e) => { println(\"  Err\", e); }\n    }\n}\n")
+    out = []
+    for outer_v, inner in [(1, ("Some", 42)), (-5, ("None", None)), (7, ("Some", 0))]:
+        ictor = "Option<int>::Some(%d)" % inner[1] if inner[0] == "Some" else "Option<int>::None"
+        ishow = "  Some %d" % inner[1] if inner[0] == "Some" else "  None"
+        for name in ("item", "fresh"):          # binding named like the variable in scope / a fresh name
+            prog = (SHOW + "int main() {\n    Option<int> item = Option<int>::Some(%d);\n    Option<Option<int> > w = Option<Option<int> >::Some(%s);\n"
+                    "    show(item);\n    match (w) {\n        Some(%s) => {\n            show(%s);\n        }\n        None => { println(\"wnone\"); }\n    }\n    show(item);\n"
+                    "    println(\"END\");\n    return 0;\n}\n" % (outer_v, ictor, name, name))
+            out.append(("opt-opt %s %s %d" % (name, inner[0], outer_v), prog, "  Some %d\n%s\n  Some %d\nEND\n" % (outer_v, ishow, outer_v)))
+    # the outer value None: the arm with the binding is not taken
+    out.append(("opt-opt outer-none", SHOW + "int main() {\n    Option<int> item = Option<int>::Some(3);\n    Option<Option<int> > w = Option<Option<int> >::None;\n"
+                "    match (w) {\n        Some(item) => { show(item); }\n        None => { println(\"wnone\"); }\n    }\n    show(item);\n    println(\"END\");\n    return 0;\n}\n",
+                "wnone\n  Some 3\nEND\n"))
+    for rc, rs in [("Result<int, string>::Err(\"disk full\")", "failed disk full"), ("Result<int, string>::Ok(9)", "done 9")]:
+        out.append(("opt-result nested " + rs.split()[0], SHOW + "int main() {\n    Result<int, string> r = Result<int, string>::Ok(7);\n"
+                    "    Option<Result<int, string> > job = Option<Result<int, string> >::Some(%s);\n    showr(r);\n    match (job) {\n        Some(r) => {\n"
+                    "            match (r) {\n                Ok(r) => { println(\"done\", r); }\n                Err(r) => { println(\"failed\", r); }\n            }\n        }\n"
+                    "        None => { println(\"nojob\"); }\n    }\n    showr(r);\n    println(\"END\");\n    return 0;\n}\n" % rc,
+                    "  Ok 7\n%s\n  Ok 7\nEND\n" % rs))
+    out.append(("loop rebinding", SHOW + "int main() {\n    Option<int> slot = Option<int>::None;\n    for (int i = 0; i < 3; i++) {\n"
+                "        Option<Option<int> > w = Option<Option<int> >::Some(Option<int>::Some(100 + i));\n        match (w) {\n            Some(slot) => { show(slot); }\n"
+                "            None => { println(\"wnone\"); }\n        }\n        show(slot);\n    }\n    println(\"END\");\n    return 0;\n}\n",
+                "  Some 100\n  None\n  Some 101\n  None\n  Some 102\n  None\nEND\n"))
+    out.append(("long payload nested", SHOW + "int main() {\n    Option<long> lgv = Option<long>::Some(5);\n    Option<Option<long> > w = Option<Option<long> >::Some(Option<long>::Some(5000000000));\n"
+                "    match (w) {\n        Some(lgv) => { showl(lgv); }\n        None => { println(\"wnone\"); }\n    }\n    showl(lgv);\n    println(\"END\");\n    return 0;\n}\n",
+                "  SomeL 5000000000\n  SomeL 5\nEND\n"))
+    return out
+
+
 # ---------------------------------------------------------------- generators
 
 def pick_payload(r, kind):
@@ -481,6 +516,15 @@ def main(a):
                 sh.kinds, sh.ctor(vv, p), mode, arms, exp, cls, o[0][-80:], o[1]),
                 {"program": progs[k], "expected_stdout": exp, "expected_class": cls, "impl_stdout": o[0],
                  "impl_exit_class": o[1], "impl_stderr": o[2][-300:]}, tags_of(sh, vv, p, mode))
+    # --- A2: enum-valued payloads and bindings that shadow a variable in scope
+    nc = nested_payload_cases()
+    no = common.run_programs(exe, [c[1] for c in nc], timeout=10)
+    dist["nested-payload"] = len(nc)
+    for (cid, prog, exp), o in zip(nc, no):
+        nontrivial.add(("nested", cid))
+        if o[0] != exp or o[1] != "ok":
+            fail("nested-payload", "case %s: expected %r got %r (%s)" % (cid, exp, o[0][-120:], o[1]),
+                 {"program": prog, "expected_stdout": exp, "expected_class": "ok", "impl_stdout": o[0], "impl_exit_class": o[1], "impl_stderr": o[2][-300:]}, set())
     # --- B: chains and nests
     ch = gen_chains(a.seed, 150 if quick else 25000, quick)
     lines = []
